@@ -101,6 +101,31 @@ class ActGen:
                 self.motor_pins.update(ps)
 
     def getters(self, kind, name):
+        if self.r.random() < 0.3:
+            # the getter results stored in fresh variables first (their declared type must hold the value)
+            self.nvar += 1
+            n = self.nvar
+            self.features.add("getter-via-variable")
+            if kind == "led":
+                self.emit(f"gs{n} = {name}.get_state()")
+                self.emit(f"gb{n} = {name}.get_brightness()")
+                self.emit(f"mon.write(int(gs{n}))")
+                self.emit(f"mon.write(gb{n})")
+            elif kind == "servo":
+                self.emit(f"ga{n} = {name}.read()")
+                self.emit(f"gp{n} = {name}.read_us()")
+                self.emit(f"mon.write(ga{n})")
+                self.emit(f"mon.write(gp{n})")
+            elif kind == "motor":
+                self.emit(f"gv{n} = {name}.get_speed()")
+                self.emit(f"gw{n} = {name}.get_applied_speed()")
+                self.emit(f"gi{n} = {name}.is_inverted()")
+                self.emit(f"gm{n} = {name}.get_mode()")
+                self.emit(f"mon.write(gv{n})")
+                self.emit(f"mon.write(gw{n})")
+                self.emit(f"mon.write(int(gi{n}))")
+                self.emit(f"mon.write(gm{n})")
+            return
         if kind == "led":
             self.emit(f"mon.write(int({name}.get_state()))")
             self.emit(f"mon.write({name}.get_brightness())")
